@@ -18,6 +18,16 @@ Theorem C11_match : forall C objcls M T l dom,
   forall o, In o (run C M T l dom) <-> In o (spec_run (sub C) M T l dom).
 Proof. exact match_run_exact. Qed.
 
+(* selected inner parts (select / select_any / select_all / entity_selection): the rows reported -- the values of the
+   selected expressions: for a selected keyword the attribute value and, on a collection attribute, the matched member;
+   the root element first for entity_selection, or alone when nothing is selected -- are exactly the Spec's projections
+   of the satisfying assignments, as a set.  Multiplicities are not claimed: a row is yielded once per satisfying
+   assignment of ALL flattened collections (selected or not) and once per common member of a literal collection. *)
+Theorem C11_rows : forall C objcls M rootsel T l dom,
+  sub_trans C -> typed C objcls M -> F11 C objcls T l = true ->
+  forall r, In r (run_rows C M rootsel T l dom) <-> In r (spec_rows (sub C) M rootsel T l dom).
+Proof. exact match_rows_exact. Qed.
+
 (* the conditions built from the keywords are satisfiable from the binding root := o exactly when o satisfies the
    keywords (relaxed reading; the Spec itself for patterns in F11, see lax_strict), and every result keeps that binding
    of the root *)
@@ -42,6 +52,11 @@ Theorem C11_fragment_flag : forall c : mcase, in_F c = true ->
   forall o, In o (run (case_cmodel c) (case_world c) (c_T c) (c_pat c) (c_dom c)) <->
             In o (spec_run (sub (case_cmodel c)) (case_world c) (c_T c) (c_pat c) (c_dom c)).
 Proof. exact fragment_flag. Qed.
+
+Theorem C11_fragment_flag_rows : forall c : mcase, in_F c = true ->
+  forall r, In r (run_rows (case_cmodel c) (case_world c) (c_rootsel c) (c_T c) (c_pat c) (c_dom c)) <->
+            In r (spec_rows (sub (case_cmodel c)) (case_world c) (c_rootsel c) (c_T c) (c_pat c) (c_dom c)).
+Proof. exact fragment_flag_rows. Qed.
 
 (* ---- finding C11-e characterised: on F11lax (F11 without the clause "every nested match on a collection emits a
    condition") the answer is exactly what the relaxed reading [lax_*] denotes: the Spec, except that a nested match on a
@@ -101,11 +116,19 @@ Proof. exact fixed_unrelated_type. Qed.
 Example C11_nonvacuous : in_F w_ok = true /\ model_out w_ok = SL [SZ 6] /\ spec_out w_ok = SL [SZ 6].
 Proof. exact nonvacuous. Qed.
 
+(* a pattern with select, select_any and entity_selection inside F11 with a non-empty set of rows *)
+Example C11_select_example :
+  in_F w_select = true /\ sx_eqb (model_rows_out w_select) (spec_rows_out w_select) = true /\
+  negb (sx_eqb (spec_rows_out w_select) (SL [])) = true.
+Proof. exact select_example. Qed.
+
 Print Assumptions C11_match.
+Print Assumptions C11_rows.
 Print Assumptions C11_match_sat.
 Print Assumptions C11_no_error.
 Print Assumptions C11_and_chain.
 Print Assumptions C11_fragment_flag.
+Print Assumptions C11_fragment_flag_rows.
 Print Assumptions C11_match_lax.
 Print Assumptions C11_lax_superset.
 Print Assumptions C11_vacuous_keyword.
